@@ -2947,9 +2947,10 @@ pub (crate) fn bid128_ext_fma(
                         is_tiny = true;
                     }
                     #[cfg(not(feature = "decimal_tiny_detection_after_rounding"))]
+                    // the rounded significand is 10^33: tiny (before rounding) only if the exact result lies below it
                     if ((res.w[1] & 0x7fffffffffffffffu64) == 0x0000314dc6448d93u64) &&
                         (res.w[0] == 0x38c15b0a00000000u64) &&  // 10^33*10^-6176
-                        (z_sign != p_sign) {
+                        (is_inexact_gt_midpoint || is_midpoint_lt_even) {
                         is_tiny = true;
                     }
                 },
